@@ -1,6 +1,20 @@
-// hooks for encoding (included into /repo/falcon-rust/src/encoding.rs as `mod verif` under
-// --cfg falcon_rust_verif).
+// hooks for encoding (included into /repo/falcon-rust/src/encoding.rs as `mod verif`).
+// Unit U-CODEC-K: compress_coefficient (complete over i16).  A bounded Kani run of compress on
+// the real iterator code (n <= 3, L <= 8) was tried and dropped: CBMC ran out of memory / time
+// (see DESIGN.md); compress is proved by the Verus unit U-CODEC instead.
 include!(concat!(env!("FALCON_RUST_VERIF_DIR"), "/hooks/common.rs"));
 
 harnesses! {
+    /// contract of compress_coefficient over all of i16: length 9 + |c|>>7, byte = sign | low 7
+    fn compress_coefficient_contract(d) {
+        let c = d.i16();
+        let (len, byte) = compress_coefficient(c);
+        let a = (c as i32).unsigned_abs();
+        assert!(len == 9 + (a >> 7) as usize, "C07.coef.len: 9 + |c| >> 7 bits");
+        assert!(byte as u32 == (((c < 0) as u32) << 7) | (a & 127), "C07.coef.byte: sign bit then 7 low bits");
+        vcover!(c == i16::MIN, "reach: i16::MIN");
+        vcover!(c == -1, "reach: -1");
+        vcover!(c == 12159, "reach: 12159");
+    }
+
 }
